@@ -215,6 +215,27 @@ pub fn check(t: &Trace<'_>, out: &mut CaseOut) -> bool {
             _ => {}
         }
     }
+    // a spec-valid PUBLISH that fits the receive buffer is never answered with a decode error
+    if !hostile {
+        for o in t.log.ops.iter().filter(|o| matches!(o.outcome, Outcome::Err(ErrRepr::InvalidPacket))) {
+            let Some(c) = o.conn else { continue };
+            let conn = &w.conns[c];
+            // the packet the reader was working on when it gave up
+            let Some(ip) = conn.in_pkts.iter().find(|ip| ip.start < conn.in_read && conn.in_read <= ip.end) else { continue };
+            if !matches!(ip.pkt, Some(SPacket::Publish { .. })) {
+                continue;
+            }
+            if let crate::refcodec::Class::MustAccept(_) = crate::refcodec::classify_server(&ip.raw, t.log.cfg.rx) {
+                let fit = if ip.raw.len() == t.log.cfg.rx { "exact-fit" } else { "fits" };
+                out.violations.push(viol("C04", format!("C04/valid-publish-rejected/{}", fit), format!("conn {}: {} returned {:?} while reading a spec-valid PUBLISH of {} bytes (receive buffer {} bytes); it was never delivered", c, o.kind, o.outcome, ip.raw.len(), t.log.cfg.rx)));
+            }
+        }
+        for c in &w.conns {
+            if c.in_pkts.iter().any(|ip| ip.raw.len() == t.log.cfg.rx && ip.ev_consumed.is_some() && matches!(ip.pkt, Some(SPacket::Publish { .. }))) {
+                out.count("exact_fit_publishes_consumed", 1);
+            }
+        }
+    }
     // owed acknowledgements are on the wire once the client went idle on a healthy connection
     if !broken && !hostile && acks_judged {
         if let Some(last) = t.conns.last() {
